@@ -122,6 +122,42 @@ def generic_suite(run, mod, tier, seed):
     return {"evaluations": evaluations, "nontrivial": len(nontriv), "samples": samples, "disagreements": disagreements, "dist": dist}
 
 
+def generic_replay(j):
+    """run the recorded input(s) of a replay file on the implementation as it is now and print what it answers"""
+    ok, binp, out, dt = lv.build_harness("debug")
+    if not ok:
+        print("harness build failed:\n" + out[-2000:])
+        return 2
+    items = [j.get("violation")] + list(j.get("all") or []) + [b for b in (j.get("broken_obligations") or []) if isinstance(b, dict)]
+    reqs = []
+    for it in items:
+        inp = (it or {}).get("input")
+        if not isinstance(inp, dict):
+            continue
+        if "kind" in inp:
+            q = dict(inp)
+        elif "template" in inp:
+            q = {"kind": "render", "tpl": inp["template"], "data": inp.get("data", [])}
+            if inp.get("partials"):
+                q["partials"] = inp["partials"]
+        elif "text" in inp:
+            q = {"kind": "parse", "config": inp.get("config", "stdlib"), "tpl": inp["text"]}
+        else:
+            continue
+        q["id"] = len(reqs)
+        reqs.append(q)
+        if len(reqs) >= 10:
+            break
+    if not reqs:
+        print("no input of this replay file can be re-run generically; the recorded observation is printed above")
+        return 0
+    resps, problems = lv.run_harness(binp, reqs, tag="replay")
+    for q in reqs:
+        print("REQUEST  " + json.dumps(q, ensure_ascii=False)[:1500])
+        print("NOW      " + json.dumps(resps.get(q["id"]), ensure_ascii=False)[:1500])
+    return 0
+
+
 def main():
     ap = argparse.ArgumentParser()
     ap.add_argument("prop")
@@ -136,7 +172,7 @@ def main():
         mod = importlib.import_module("props." + j["property"].lower())
         if hasattr(mod, "replay"):
             return mod.replay(j)
-        return 0
+        return generic_replay(j)
     mod = importlib.import_module("props." + a.prop.lower())
     if hasattr(mod, "main"):
         return mod.main(tier, seed)
